@@ -18,14 +18,12 @@ RANDOM_MC = T([dict(cfg="MC_Random.cfg", timeout=1500),
                # restart from a zero-height export (model-level PrepForZeroHeightGenesis / export / import)
                dict(cfg="MC_Random_zh.cfg", timeout=1500)],
               [dict(cfg="MC_Random_big.cfg", timeout=3400),
-               dict(cfg="MC_Random_zh.cfg", timeout=1500),
-               # block intervals of 2^64 - k (they wrap to a due height in the past)
-               dict(cfg="MC_Random_wrap.cfg", timeout=3400)])
+               dict(cfg="MC_Random_zh.cfg", timeout=1500)])
 # MC_Random_live.cfg (LiveSpec / Live_Fulfilled) is exploratory and in no tier.
 RANDOM_GEN_CFG = "users=2,provs=1,funds=25,timeout=2,price=10"
 # fixed coverage suite: exercises every required antecedent whatever the seed
 RANDOM_SCN = [dict(file="scenarios/random_cover.ndjson", cfg=RANDOM_GEN_CFG),
-              # beyond C18 (diagnostic clauses X18_*): shared ids, late answers, wrapping intervals, zero-height restart
+              # beyond C18 (diagnostic clauses X18_*): shared ids, late answers, zero-height restart; wrapping intervals (regression of beca1b5: refused)
               dict(file="scenarios/random_dup.ndjson", cfg=RANDOM_GEN_CFG),
               dict(file="scenarios/random_wrap.ndjson", cfg=RANDOM_GEN_CFG),
               dict(file="scenarios/random_zh.ndjson", cfg="users=2,provs=1,bound=0,funds=25,timeout=2,price=10")]
